@@ -446,7 +446,17 @@ func runC20(c *Ctx) {
 					se = append(se, successEdges(f, v)...)
 				}
 			}
-			okp, _ := mustPass(f, b, newCuts().addEdges(se))
+			// the extension takes effect where the concatenation is carried into the next iteration
+			okp := true
+			for ei, e := range ph.Edges {
+				if stripConv(e) != ssa.Value(b) {
+					continue
+				}
+				pred := ph.Block().Preds[ei]
+				if o, _ := mustPass(f, pred.Instrs[len(pred.Instrs)-1], newCuts().addEdges(se)); !o {
+					okp = false
+				}
+			}
 			c.verdict(c.fnKey(f)+":validated-append", b.Pos(), okp && len(se) > 0, "value extended only after Validate(key, value+next) succeeded", "a label value grows without checking the size limit: Prepare fails for images with many layers/URLs")
 			accs = append(accs, labelAcc{f, ph, b, vals})
 		})
